@@ -34,8 +34,34 @@ func GenerateTreeC03(r *Rng, root string, o GenOpts) *GenTree {
 	if d == 0 {
 		d = 35
 	}
+	// a makefile fragment outside every package directory, only ever loaded as an included file;
+	// it contains fixes that are applied at parse time (space after the variable name, $(VAR))
+	shared := false
+	if r.Chance(d + 25) {
+		ls := []string{cvsID, ""}
+		for k := 0; k < 1+r.Intn(4); k++ {
+			ls = append(ls, Pick(r, []string{"SHARED_VAR =\tvalue", "SHARED_ARGS=\t--prefix=$(PREFIX)", "SHARED_FLAGS +=\t-I$(LOCALBASE)/include",
+				"SHARED_OK=\tyes", "SHARED_LONG_NAME=  two spaces", "SHARED_CONT=\tfirst \\\n  $(SHARED_VAR) \\\n\tlast"}))
+		}
+		text := strings.Join(ls, "\n") + "\n"
+		if r.Chance(8) {
+			text = strings.TrimSuffix(text, "\n")
+			g.feat("c03.shared-mk.no-final-nl")
+		}
+		g.put("cat/common/shared.mk", text)
+		g.feat("c03.shared-mk")
+		shared = true
+	}
 	for i, dir := range g.Pkgs {
 		name := filepath.Base(dir)
+		if shared && r.Chance(70) {
+			inc := ".include \"../../cat/common/shared.mk\"\n"
+			if g.rewrite(dir+"/Makefile", func(s string) string {
+				return strings.Replace(s, ".include \"../../mk/bsd.pkg.mk\"", inc+".include \"../../mk/bsd.pkg.mk\"", 1)
+			}) {
+				g.feat("c03.include-shared-mk")
+			}
+		}
 		if r.Chance(d / 2) {
 			// a real distfile; distinfo has only some of the hashes, all of them correct
 			data := fmt.Sprintf("distfile of %s %d\n", name, r.Intn(1000))
